@@ -14,7 +14,7 @@ use std::collections::{BTreeMap, BTreeSet};
 
 #[derive(Clone, Debug)]
 enum Op { NewId, Add(Object), Set(ObjectId, Object), Del(ObjectId), Prune, DelZero, Renum(u32), DelPages(Vec<u32>), AddContent(ObjectId, Vec<u8>),
-          RmAnnot(ObjectId), AddXObj(ObjectId, Vec<u8>, ObjectId), AddGs(ObjectId, Vec<u8>, ObjectId), ChgStream(ObjectId, Vec<u8>), ChgPage(ObjectId, Vec<u8>) }
+          RmAnnot(ObjectId), AddXObj(ObjectId, Vec<u8>, ObjectId), AddGs(ObjectId, Vec<u8>, ObjectId), ChgStream(ObjectId, Vec<u8>), ChgPage(ObjectId, Vec<u8>), Compress, Decompress }
 
 /// what `ZlibEncoder::new(_, Compression::best())` returns: the external codec result shipped with the request
 fn deflate_best(data: &[u8]) -> Vec<u8> {
@@ -23,6 +23,56 @@ fn deflate_best(data: &[u8]) -> Vec<u8> {
     e.write_all(data).unwrap();
     e.finish().unwrap()
 }
+/// exactly what `decompress_zlib` asks of flate2 (errors ignored, partial output kept) — as in C09
+fn ext_inflate(input: &[u8]) -> Vec<u8> {
+    use std::io::Read;
+    let mut out = Vec::new();
+    if !input.is_empty() { let _ = flate2::read::ZlibDecoder::new(input).read_to_end(&mut out); }
+    out
+}
+/// exactly what `decompress_lzw` asks of weezl
+fn ext_lzw(input: &[u8], early: bool) -> Vec<u8> {
+    use weezl::{decode::Decoder, BitOrder};
+    let mut d = if early { Decoder::with_tiff_size_switch(BitOrder::Msb, 8) } else { Decoder::new(BitOrder::Msb, 8) };
+    let mut out = vec![];
+    let _ = d.into_stream(&mut out).decode_all(input);
+    out
+}
+fn ext_add(tab: &mut Vec<(String, Vec<u8>, Vec<u8>)>, kind: &str, i: &[u8], o: Vec<u8>) {
+    if !tab.iter().any(|(k, a, _)| k == kind && a == i) { tab.push((kind.into(), i.to_vec(), o)); }
+}
+fn ext_text(tab: &[(String, Vec<u8>, Vec<u8>)]) -> String {
+    let mut s = tab.len().to_string();
+    for (k, i, o) in tab { s.push_str(&format!(" {} {} {}", k, hex_tok(i), hex_tok(o))); }
+    s
+}
+/// external decoder results for every Flate / LZW stage the real filter chain of `s` reaches
+fn ext_for(tab: &mut Vec<(String, Vec<u8>, Vec<u8>)>, s: &lopdf::Stream) {
+    let Ok(filters) = s.filters() else { return };
+    let filters: Vec<Vec<u8>> = filters.into_iter().map(|f| f.to_vec()).collect();
+    let mut input = s.content.clone();
+    for (k, f) in filters.iter().enumerate() {
+        match f.as_slice() {
+            b"FlateDecode" => ext_add(tab, "z", &input, ext_inflate(&input)),
+            b"LZWDecode" => { ext_add(tab, "l0", &input, ext_lzw(&input, false)); ext_add(tab, "l1", &input, ext_lzw(&input, true)); }
+            _ => {}
+        }
+        if k + 1 == filters.len() { break; }
+        let mut p = s.clone();
+        p.dict.set("Filter", Object::Array(filters[..=k].iter().map(|n| Object::Name(n.clone())).collect()));
+        match guard(|| p.decompressed_content()) { Ok(Ok(v)) => input = v, _ => break }
+    }
+}
+fn compress_ext(doc: &Document) -> String {
+    let mut tab = vec![];
+    for (_, o) in doc.objects.iter() { if let Object::Stream(s) = o { if !s.dict.has(b"Filter") { ext_add(&mut tab, "d", &s.content, deflate_best(&s.content)); } } }
+    ext_text(&tab)
+}
+fn decompress_ext(doc: &Document) -> String {
+    let mut tab = vec![];
+    for (_, o) in doc.objects.iter() { if let Object::Stream(s) = o { ext_for(&mut tab, s); } }
+    ext_text(&tab)
+}
 fn inflate(data: &[u8]) -> Option<Vec<u8>> {
     use std::io::Read;
     let mut out = vec![];
@@ -30,8 +80,10 @@ fn inflate(data: &[u8]) -> Option<Vec<u8>> {
     Some(out)
 }
 
-fn op_text(op: &Op) -> String {
+fn op_text(op: &Op, doc: &Document) -> String {
     match op {
+        Op::Compress => format!("compress {}", compress_ext(doc)),
+        Op::Decompress => format!("decompress {}", decompress_ext(doc)),
         Op::NewId => "newid".into(),
         Op::Add(o) => format!("add {}", show_obj(o)),
         Op::Set(id, o) => format!("set {} {} {}", id.0, id.1, show_obj(o)),
@@ -67,6 +119,8 @@ fn apply(doc: &mut Document, op: &Op) -> String {
         Op::AddGs(p, n, x) => match doc.add_graphics_state(*p, n.clone(), *x) { Ok(()) => "unit".into(), Err(_) => "err".into() },
         Op::ChgStream(id, c) => { doc.change_content_stream(*id, c.clone()); "unit".into() }
         Op::ChgPage(id, c) => match doc.change_page_content(*id, c.clone()) { Ok(()) => "unit".into(), Err(_) => "err".into() },
+        Op::Compress => { doc.compress(); "unit".into() }
+        Op::Decompress => { doc.decompress(); "unit".into() }
     }
 }
 
@@ -122,13 +176,11 @@ fn count_all(o: &Object, id: ObjectId) -> usize { let mut v = vec![]; collect_re
 fn predict_value(o: &Object, id: ObjectId, l: &mut Left) {
     match o {
         Object::Array(a) => {
-            let m = a.iter().filter(|x| is_ref_to(x, id)).count();
-            if m >= 2 { l.kinds.insert("array-duplicate"); l.count += m - 1; }
             for x in a { if !is_ref_to(x, id) { predict_value(x, id, l); } }
         }
         Object::Dictionary(d) => { for (_, v) in d.iter() { if !is_ref_to(v, id) { predict_value(v, id, l); } } }
         Object::Stream(s) => {
-            for (_, v) in s.dict.iter() { if is_ref_to(v, id) { l.kinds.insert("stream-dict"); l.count += 1; } else { predict_value(v, id, l); } }
+            for (_, v) in s.dict.iter() { if !is_ref_to(v, id) { predict_value(v, id, l); } }
         }
         Object::Reference(r) => { if *r == id { l.kinds.insert("top-level-reference"); l.count += 1; } }
         _ => {}
@@ -138,7 +190,8 @@ fn predict_value(o: &Object, id: ObjectId, l: &mut Left) {
 /// nothing on a stream's own dictionary or on a bare reference)
 fn code_action(o: &Object, id: ObjectId) -> Object {
     match o {
-        Object::Array(a) => { let mut v = a.clone(); if let Some(i) = v.iter().position(|x| is_ref_to(x, id)) { v.remove(i); } Object::Array(v) }
+        Object::Array(a) => Object::Array(a.iter().filter(|x| !is_ref_to(x, id)).cloned().collect()),
+        Object::Stream(st) => { let mut n = st.clone(); let keys: Vec<Vec<u8>> = st.dict.iter().filter(|(_, v)| is_ref_to(v, id)).map(|(k, _)| k.clone()).collect(); for k in keys { n.dict.remove(&k); } Object::Stream(n) }
         Object::Dictionary(d) => { let mut n = d.clone(); let keys: Vec<Vec<u8>> = d.iter().filter(|(_, v)| is_ref_to(v, id)).map(|(k, _)| k.clone()).collect(); for k in keys { n.remove(&k); } Object::Dictionary(n) }
         x => x.clone(),
     }
@@ -160,7 +213,7 @@ fn refs_after_action(o: &Object, id: ObjectId, out: &mut Vec<ObjectId>) {
 fn predict_leftovers(doc: &Document, id: ObjectId) -> Left {
     let mut l = Left::default();
     let mut todo = vec![];
-    for (_, v) in doc.trailer.iter() { if is_ref_to(v, id) { l.kinds.insert("trailer"); l.count += 1; todo.push(id); } else { predict_value(v, id, &mut l); refs_after_action(v, id, &mut todo); } }
+    for (_, v) in doc.trailer.iter() { if !is_ref_to(v, id) { predict_value(v, id, &mut l); refs_after_action(v, id, &mut todo); } }
     let mut reach: BTreeSet<ObjectId> = BTreeSet::new();
     while let Some(k) = todo.pop() {
         if !reach.insert(k) { continue; }
@@ -184,7 +237,7 @@ fn strip_all(o: &Object, id: ObjectId, top: bool) -> Object {
     match o {
         Object::Array(a) => Object::Array(a.iter().filter(|x| !is_ref_to(x, id)).map(|x| strip_all(x, id, false)).collect()),
         Object::Dictionary(d) => { let mut n = Dictionary::new(); for (k, v) in d.iter() { if !is_ref_to(v, id) { n.set(k.clone(), strip_all(v, id, false)); } } Object::Dictionary(n) }
-        Object::Stream(s) => { let mut s2 = s.clone(); let mut n = Dictionary::new(); for (k, v) in s.dict.iter() { n.set(k.clone(), if is_ref_to(v, id) { v.clone() } else { strip_all(v, id, false) }); } s2.dict = n; Object::Stream(s2) }
+        Object::Stream(s) => { let mut s2 = s.clone(); let mut n = Dictionary::new(); for (k, v) in s.dict.iter() { if !is_ref_to(v, id) { n.set(k.clone(), strip_all(v, id, false)); } } s2.dict = n; Object::Stream(s2) }
         x => { let _ = top; x.clone() }
     }
 }
@@ -366,6 +419,23 @@ fn oracle(c: &mut Ctx, sc: &StepCtx, op: &Op, before: &Document, after: &Documen
             if matches!(before.objects.get(sid), Some(Object::Stream(_))) { check_changed_stream(c, sc, before, after, *sid, content); unchanged(c, &[*sid], "frame:change_content_stream"); }
             else { unchanged(c, &[], "frame:change_content_stream"); }
         }
+        Op::Compress | Op::Decompress => {
+            // frame: nothing but stream objects changes; every stream still decodes to the same bytes and its
+            // Length is the stored length; decompress leaves no FlateDecode stream compressed
+            if after.trailer != before.trailer || after.max_id != before.max_id || after.objects.len() != before.objects.len() { fail(c, sc, "frame:compress", "trailer / max_id / object count changed", before); }
+            for (k, o) in before.objects.iter() {
+                match (o, after.objects.get(k)) {
+                    (Object::Stream(b), Some(Object::Stream(a))) => {
+                        if let (Some(x), y) = (decoded(b), decoded(a)) { if y.as_deref() != Some(&x[..]) { fail(c, sc, "compress:content", "a stream no longer decodes to the same content", before); break; } c.count("compress_streams_checked"); }
+                        if a != b && !matches!(a.dict.get(b"Length"), Ok(Object::Integer(l)) if *l == a.content.len() as i64) { fail(c, sc, "compress:length", "Length of a rewritten stream is not its stored length", before); break; }
+                        if matches!(op, Op::Decompress) && decoded(b).is_some() && a.dict.has(b"Filter") { fail(c, sc, "decompress:still-compressed", "a decodable stream is still compressed", before); break; }
+                        for (dk, dv) in b.dict.iter() { if dk != b"Length" && dk != b"Filter" && dk != b"DecodeParms" && a.dict.get(dk).ok() != Some(dv) { fail(c, sc, "frame:compress", "stream dictionary entry lost", before); break; } }
+                    }
+                    (x, Some(y)) => if x != y { fail(c, sc, "frame:compress", "a non-stream object changed", before); break; },
+                    (_, None) => { fail(c, sc, "frame:compress", "object lost", before); break; }
+                }
+            }
+        }
         Op::ChgPage(page, content) => {
             if ret == "unit" && (after.objects != before.objects) {
                 // the page's content afterwards = the new content (own decoding of the streams Contents names)
@@ -426,7 +496,7 @@ fn gen_op(r: &mut Rng, doc: &Document, safe_only: bool) -> Option<Op> {
     let streams: Vec<ObjectId> = doc.objects.iter().filter(|(_, o)| matches!(o, Object::Stream(_))).map(|(k, _)| *k).collect();
     let gen_content = |r: &mut Rng| -> Vec<u8> { if r.chance(1, 2) { let pat: Vec<u8> = (0..1 + r.usize(6)).map(|_| r.byte()).collect(); let n = r.usize(60); (0..n).flat_map(|_| pat.clone()).collect() } else { (0..r.usize(40)).map(|_| r.byte()).collect() } };
     let res_names: [&[u8]; 4] = [b"Im1", b"X", b"GS0", b"F1"];
-    Some(match r.below(18) {
+    Some(match r.below(20) {
         0 => Op::NewId,
         1 | 2 => Op::Add(gen_obj(r, 0, &rp)),
         3 => {
@@ -483,10 +553,12 @@ fn gen_op(r: &mut Rng, doc: &Document, safe_only: bool) -> Option<Op> {
             let t = if !streams.is_empty() && r.chance(5, 6) { *r.pick(&streams) } else if !ids.is_empty() { *r.pick(&ids) } else { return None };
             Op::ChgStream(t, gen_content(r))
         }
-        _ => {
+        16 | 17 => {
             let target = if !pages.is_empty() && r.chance(7, 8) { *r.pick(&pages) } else if !ids.is_empty() { *r.pick(&ids) } else { return None };
             Op::ChgPage(target, gen_content(r))
         }
+        18 => Op::Compress,
+        _ => Op::Decompress,
     })
 }
 
@@ -530,7 +602,7 @@ fn run_program(c: &mut Ctx, r: &mut Rng, stream: &str, safe_only: bool, max_len:
     for step in 0..len {
         let Some(op) = gen_op(r, &doc, safe_only) else { c.count("op_skipped"); continue };
         let before = doc.clone();
-        let text = op_text(&op);
+        let text = op_text(&op, &before);
         let req = format!("step {} {}", text, show_doc(&before));
         c.count(&format!("op.{}", text.split(' ').next().unwrap()));
         let sc = StepCtx { stream, step, op: text.clone() };
@@ -587,7 +659,13 @@ fn witnesses(c: &mut Ctx) {
                 let in_stream = matches!(x.objects.get(&(6, 0)), Some(Object::Stream(s)) if matches!(s.dict.get(b"Meta"), Ok(Object::Reference((5, 0)))));
                 let in_array = matches!(x.objects.get(&(7, 0)), Some(Object::Array(a)) if a.iter().filter(|o| is_ref_to(o, (5, 0))).count() == 1);
                 let dict_clean = matches!(x.objects.get(&(1, 0)), Some(Object::Dictionary(cat)) if !cat.has(b"I"));
-                c.witness("F-C11-a", in_trailer && in_stream && in_array && dict_clean && !x.objects.contains_key(&(5, 0)),
+                // after the partial fix the three probed positions are clean; what remains open is the unreachable holder
+                let mut y = before.clone();
+                y.objects.insert((9, 0), Object::Array(vec![Object::Reference((5, 0))]));
+                let _ = y.delete_object((5, 0));
+                let unreachable_left = matches!(y.objects.get(&(9, 0)), Some(Object::Array(a)) if a.len() == 1);
+                let _ = (in_trailer, in_stream, in_array);
+                c.witness("F-C11-a", unreachable_left && dict_clean && !x.objects.contains_key(&(5, 0)),
                     &format!("delete_object((5,0)): left in trailer /Info: {}, in stream dictionary: {}, second array occurrence: {}, plain dictionary entry removed: {}", in_trailer, in_stream, in_array, dict_clean));
             }
             Err((s, m)) => c.oracle_fail(&format!("panic@{}", s), &m, json!({"witness": "F-C11-a"})),
